@@ -25,6 +25,10 @@ let x5_input s = match String.split_on_char ':' s with
   | "D" :: n :: rest ->
       let fs = String.concat ":" rest in
       InDir (bytes_of_hex n, walk_order (if fs = "~" then [] else List.map x5_file (String.split_on_char ';' fs)))
+  | "O" :: n :: rest ->
+      (* entries already in the order requested with --sort-by (see metainfo.ml) *)
+      let fs = String.concat ":" rest in
+      InDir (bytes_of_hex n, (if fs = "~" then [] else List.map x5_file (String.split_on_char ';' fs)))
   | _ -> failwith "input"
 let x5_case = function
   | [normtab; hosttab; _bad; git; announce; tiers; comment; source; nodes; priv; update_url; name; plen; md5;
